@@ -120,6 +120,22 @@ def slots(ctx, R="R-C16-slots"):
                               reg, astq.text(n.value)[:70], sorted(tags),
                               "squares of narrow integer inputs wrap around and float32 inputs lose precision" if reg == "squares" else
                               "float32 inputs are summed in float32"))
+                if reg == "squares":
+                    # the squaring itself, not only the reduction that follows it
+                    for x in ast.walk(n.value):
+                        sq = (isinstance(x, ast.Call) and prog.qualify(f.module, x.func, f) in ("numpy.square", "numpy.power")) or \
+                             (isinstance(x, ast.BinOp) and isinstance(x.op, ast.Pow) and isinstance(x.right, ast.Constant) and x.right.value == 2) or \
+                             (isinstance(x, ast.BinOp) and isinstance(x.op, ast.Mult) and astq.text(x.left) == astq.text(x.right))
+                        if not sq:
+                            continue
+                        tg = dt.of(x)
+                        if "unknown" in tg:
+                            ctx.error(R, "cannot decide the dtype `%s` is computed in (%s)" % (astq.text(x)[:50], sorted(tg)))
+                        else:
+                            ctx.check(tg == {"f64"}, R, f, n, "the squares are computed in float64",
+                                      "`%s` squares the input in its own dtype (%s) before the float64 reduction: squares of narrow integer inputs wrap around "
+                                      "(|x| > 181 for int16, > 15 for uint8) and float32 inputs lose precision, so the second moment - and the variance - is wrong"
+                                      % (astq.text(x)[:50], sorted(tg)), robust=True)
 
 
 def appliers(ctx, R="R-C16-apply"):
@@ -678,6 +694,10 @@ def readonly(ctx, R="R-C16-readonly"):
     ctx.check(not bad, R, f, bad[0].stmt if bad else f.node, "apply writes through its input only when in_place is true",
               "Standardize.apply can modify the caller's array with in_place=False (%s)" % ", ".join(sorted({w.how for w in bad})), robust=True)
     ctx.check(len(ws) >= 1, R, f, f.node, "in_place=True is honoured (the data is standardised in place)", robust=True)
+    from ..eff import check_result_fresh
+    for nm in ("_apply_vector", "_apply_tensor"):
+        if nm in c.methods:
+            check_result_fresh(ctx, R, c.methods[nm])
     acc = prog.own_method(c, "accumulate")
     eff2 = Effects(prog)
     ws, _ = eff2.writes_to(acc, acc.params[1])
